@@ -310,7 +310,8 @@ class Ctx:
     def finish(self):
         for sig, what in self.known_hits:
             print("KNOWN-FINDING: property=%s %s [%s]" % (self.prop, what, sig), flush=True)
-        self.write_evidence()
+        if not self.replay:      # a replay run re-checks one stored case; it is not evidence
+            self.write_evidence()
         if self.violations:
             self.log("%d violation(s)" % len(self.violations))
             return 1
